@@ -45,8 +45,11 @@ static ACQ: AtomicU64 = AtomicU64::new(0);
 static CONTENDED: AtomicU64 = AtomicU64::new(0);
 static MAX_WAIT_US: AtomicU64 = AtomicU64::new(0);
 static LAST_KIND: AtomicUsize = AtomicUsize::new(99);
-static TRANS: [AtomicU64; 6 * 6] = [const { AtomicU64::new(0) }; 36];
-static BYKIND: [AtomicU64; 6] = [const { AtomicU64::new(0) }; 6];
+static TRANS: [AtomicU64; 7 * 7] = [const { AtomicU64::new(0) }; 49];
+static BYKIND: [AtomicU64; 7] = [const { AtomicU64::new(0) }; 7];
+thread_local! {
+    static MY_VAL: std::cell::Cell<i32> = const { std::cell::Cell::new(0) };
+}
 static ORDER_LOG: Mutex<Vec<u8>> = Mutex::new(Vec::new());
 
 fn witness(s: String) {
@@ -81,6 +84,7 @@ impl Drop for LiveMark {
 }
 
 /// kinds: 0 inj+fake/drop 1 inj+fake/panic 2 inj-noinstall/drop 3 inj-noinstall/panic 4 preventer/drop 5 preventer/panic
+/// 6 inj + fake!(times) left under-called: the scope exit itself panics in call-count verification
 fn one_scope(tid: usize, kind: usize, epoch: u64, rng: &mut Rng, plain_probe: bool) {
     enum G {
         I(InjectorPP),
@@ -91,7 +95,7 @@ fn one_scope(tid: usize, kind: usize, epoch: u64, rng: &mut Rng, plain_probe: bo
     WAITERS.fetch_add(1, Ordering::SeqCst);
     // declared before the guard: dropped after the guard's destructor has returned
     let live;
-    let mut guard = if kind < 4 { G::I(InjectorPP::new()) } else { G::P(InjectorPP::prevent()) };
+    let mut guard = if kind < 4 || kind == 6 { G::I(InjectorPP::new()) } else { G::P(InjectorPP::prevent()) };
     WAITERS.fetch_sub(1, Ordering::SeqCst);
     LIVE_GUARDS.fetch_add(1, Ordering::SeqCst);
     live = LiveMark;
@@ -111,8 +115,8 @@ fn one_scope(tid: usize, kind: usize, epoch: u64, rng: &mut Rng, plain_probe: bo
     ACQ.fetch_add(1, Ordering::Relaxed);
     BYKIND[kind].fetch_add(1, Ordering::Relaxed);
     let lk = LAST_KIND.swap(kind, Ordering::SeqCst);
-    if lk < 6 {
-        TRANS[lk * 6 + kind].fetch_add(1, Ordering::Relaxed);
+    if lk < 7 {
+        TRANS[lk * 7 + kind].fetch_add(1, Ordering::Relaxed);
     }
     if let Ok(mut o) = ORDER_LOG.try_lock() {
         if o.len() < 1 << 16 {
@@ -140,6 +144,16 @@ fn one_scope(tid: usize, kind: usize, epoch: u64, rng: &mut Rng, plain_probe: bo
             inj.when_called(injectorpp::func!(fn (shared)(i32) -> i32)).will_execute_raw(injectorpp::func!(f, fn(i32) -> i32));
         }
         0x100 + (tid % 16) as i32
+    } else if kind == 6 {
+        MY_VAL.with(|v| v.set(0x200 + (tid % 16) as i32));
+        if let G::I(inj) = &mut guard {
+            inj.when_called(injectorpp::func!(fn (shared)(i32) -> i32)).will_execute(injectorpp::fake!(
+                func_type: fn(_x: i32) -> i32,
+                returns: MY_VAL.with(|v| v.get()),
+                times: 1_000_000
+            ));
+        }
+        0x200 + (tid % 16) as i32
     } else {
         ORIG + 2
     };
@@ -147,7 +161,7 @@ fn one_scope(tid: usize, kind: usize, epoch: u64, rng: &mut Rng, plain_probe: bo
     for k in 0..n {
         let got = shared(2);
         if got != want {
-            if kind >= 4 {
+            if kind == 4 || kind == 5 {
                 V_PREVENTER_SAW_FAKE.fetch_add(1, Ordering::SeqCst);
                 witness(format!("preventer holder {} saw {:#x}", tid, got));
             } else {
@@ -163,7 +177,7 @@ fn one_scope(tid: usize, kind: usize, epoch: u64, rng: &mut Rng, plain_probe: bo
             std::thread::yield_now();
         }
     }
-    if kind % 2 == 1 {
+    if kind % 2 == 1 && kind < 6 {
         panic!("USER: holder {} leaves by panic", tid);
     }
     // normal exit: _mark, then guard, then live, then _lib are dropped
@@ -232,13 +246,14 @@ pub fn run(ctx: &Ctx) {
                     let mut rng = Rng::new(seed ^ hash64((idx << 8) | tid as u64));
                     barrier.wait();
                     for e in 0..per {
-                        let kind = match rng.below(10) {
+                        let kind = match rng.below(12) {
                             0..=3 => 0,
                             4 => 1,
                             5 => 2,
                             6 => 3,
                             7 | 8 => 4,
-                            _ => 5,
+                            9 => 5,
+                            _ => 6,
                         };
                         if dmode > 0 {
                             let ns = *rng.pick(&[0u64, 0, 50_000, 200_000, 1_000_000]);
@@ -312,17 +327,17 @@ pub fn run(ctx: &Ctx) {
         }
         let mut trans = 0;
         let mut tj = J::new();
-        let names = ["inj+fake/drop", "inj+fake/panic", "inj/drop", "inj/panic", "prevent/drop", "prevent/panic"];
-        for a in 0..6 {
-            for b in 0..6 {
-                let n = TRANS[a * 6 + b].load(Ordering::SeqCst);
+        let names = ["inj+fake/drop", "inj+fake/panic", "inj/drop", "inj/panic", "prevent/drop", "prevent/panic", "inj+times-unmet/exit-panics"];
+        for a in 0..7 {
+            for b in 0..7 {
+                let n = TRANS[a * 7 + b].load(Ordering::SeqCst);
                 if n > 0 {
                     trans += 1;
                     tj = tj.n(&format!("{}->{}", names[a], names[b]), n);
                 }
             }
         }
-        let byk = (0..6).fold(J::new(), |j, k| j.n(names[k], BYKIND[k].load(Ordering::SeqCst)));
+        let byk = (0..7).fold(J::new(), |j, k| j.n(names[k], BYKIND[k].load(Ordering::SeqCst)));
         let d = J::new()
             .n("threads", threads)
             .n("threads_joined", joined)
